@@ -459,6 +459,9 @@ def u_update(ctx):
                 upd_calls = []
                 eng.methods[("ArgsNamespace", "update")] = lambda e, s, recv, a, k: (upd_calls.append((recv, dict(k))), [(updated_ns, s)])[1]
                 eng.methods["new:RenderArgs"] = lambda e, s, c, a, k: [_mk(e, s, a)]
+                # RenderArgs.__contains__ (its own contract: "this very value is what the set holds for that class"): may be true or
+                # false for any namespace given - whatever it says, update() hands ALL the namespaces on, in the order given
+                eng.methods[("RenderArgs", "__contains__")] = lambda e, s, recv, a, k: [(z3.Bool(f"set_already_holds_ns{s.H(a[0])['nsid']}"), s)]
                 given = st.new("ArgsNamespace", {"nsid": 7})
                 more = tuple(st.new("ArgsNamespace", {"nsid": 8 + i}) for i in range(extra_ns))
                 fields = st.new("dict", {"@items": {"x": 1} if with_fields else {}})
